@@ -58,6 +58,33 @@ var verifFuncs = customfuncs.CustomFuncs{
 		}
 		return s, nil
 	},
+	"verif_join": func(_ *transformctx.Ctx, sep string, parts ...interface{}) (string, error) {
+		var ss []string
+		add := func(v interface{}) error {
+			str, ok := v.(string)
+			if !ok {
+				return errors.New("not a string")
+			}
+			ss = append(ss, str)
+			return nil
+		}
+		for _, p := range parts {
+			switch x := p.(type) {
+			case nil:
+			case []interface{}:
+				for _, e := range x {
+					if err := add(e); err != nil {
+						return "", err
+					}
+				}
+			default:
+				if err := add(x); err != nil {
+					return "", err
+				}
+			}
+		}
+		return strings.Join(ss, sep), nil
+	},
 	"verif_text": func(_ *transformctx.Ctx, n *idr.Node) (string, error) { return n.InnerText(), nil },
 	"verif_len":  func(_ *transformctx.Ctx, s string) (int64, error) { return int64(len(s)), nil },
 	"verif_pick": func(_ *transformctx.Ctx, i int64, ss ...string) (string, error) {
